@@ -12,7 +12,11 @@ PROP = {'lean_props': ['Comrak.Props.C06'],
                        'btLoop_bound',
                        'emphasis_terminates',
                        'emphasis_linear',
-                       'emphasis_linear_pinned',
+                       'emphasis_linear_bytes',
+                       'emphasis_linear_ext',
+                       'emphasis_linear_old_noodd',
+                       'emphasis_pinned_not_linear_counterexample',
+                       'emphasis_fixed_on_family',
                        'emphasis_quadratic_counterexample',
                        'dollar_quadratic',
                        'cdSteps_pieces',
@@ -29,8 +33,9 @@ PROP = {'lean_props': ['Comrak.Props.C06'],
  'timeout_quick': 900,
  'timeout_thorough': 3400,
  'strength': 'partial (memos, opener search, caps, size bounds): theorems for the escapers, the backtick scanner with its positional memo as '
-             'implemented (3n), process_emphasis (termination; 14 n + chars for the loop with openers_bottom raised after every failed search and '
-             'for the pinned loop on texts without an odd match; quadratic lower bound for the pinned loop on the rule-of-three family), the '
+             'implemented (3n), process_emphasis as the code is since /repo commit 9704a60 (termination; 19 n + chars opener-search steps for every '
+             'text whose delimiters are * and _ runs - a theorem about the current loop with its 17 openers_bottom slots, tied to the real counter '
+             'by K equality; the loop before that commit: quadratic lower bound on the rule-of-three family, kept as a historical counterexample), the '
              'code-dollar scanner (quadratic lower bound, abstraction = sum of failed scans), HTML output size (per node for all 41 kinds, whole '
              'trees without footnote definitions), the reference budget and the caps; the three cost models are tied to the real step counters by '
              'equality in K; linearity of the block parser and of the whole inline loop is measured by the search stage (deterministic step '
@@ -42,10 +47,12 @@ PROP = {'lean_props': ['Comrak.Props.C06'],
                   'backticks_pos_linear is proved for the positional memo model btStepsPos (run-level: gaps and run lengths); that this model '
                   'counts what the code counts is the K stage (equality with the real backtick-scan counter on exhaustive short and random '
                   'texts), and the 3n bound is checked again on every one of those texts',
-                  'emphasis_linear / emphasis_linear_pinned are proved for the delimiter-stack model emLoop; that the model counts what the code '
-                  'counts is the K stage (equality with the real emphasis-opener-search counter on all one-paragraph texts over {*,_,a,space} up to '
+                  'emphasis_linear is proved for the delimiter-stack model emLoop true (17 slots, bottom raised after every failed * / _ search); that '
+                  'the model counts what the code counts is the K stage (equality with the real emphasis-opener-search counter on all one-paragraph texts over {*,_,a,space} up to '
                   'length 8/9 and on random texts; delimiter runs are extracted by a driver-side model of scan_delims for ASCII); smart quotes and '
-                  'the ~ length-mismatch exit of insert_emph are not modelled',
+                  'the ~ length-mismatch exit of insert_emph are not modelled; for ~ ^ | closers (guarded update kept by the code) the bound needs the '
+                  'hypothesis emRaiseOk (no odd match among their openers), emphasis_linear_ext; process_emphasis calls with a non-zero stack_bottom '
+                  '(from brackets) are outside K',
                   'cdSteps / dlSteps: equality with the real dollar-scan counter with math_code on and math_dollars off on texts over {$,`,a,\\}; '
                   'scan_to_closing_dollar (math_dollars) is not modelled (its quadratic family is a known finding measured by S)',
                   'html_size_bound_partial is about the model renderHtml of Html.lean (tied to format_html by the byte-equality K of C10/C02/C18), '
@@ -54,9 +61,10 @@ PROP = {'lean_props': ['Comrak.Props.C06'],
 
 TEXT = {'text': 'Proof (partial). Lean proves: escape and escape_href write at most 6 bytes per input byte; the backtick scanner with its positional memo, as '
          'implemented, takes at most 3n counted steps over a whole inline text (a memo entry ahead of the current position always points at a run '
-         'that is still ahead, so after the first scan that runs to the end no scan fails again); process_emphasis terminates and its opener search '
-         'takes at most 14 n + chars steps when openers_bottom is raised after every failed search, and also as pinned on texts without an odd '
-         'match, while the pinned loop takes at least m^2/2 steps on 4m delimiter runs of the rule-of-three family (known finding); the HTML '
+         'that is still ahead, so after the first scan that runs to the end no scan fails again); process_emphasis, as the code is since /repo commit 9704a60 (17 openers_bottom slots, the bottom raised after '
+         'every failed search of a * or _ closer), terminates and its opener search takes at most 19 n + chars steps on every text whose delimiters '
+         'are * and _ runs (n runs, chars delimiter characters; at most 20 steps per delimiter byte), while the loop before that commit took at '
+         'least m^2/2 steps on 4m delimiter runs of the rule-of-three family (former known finding, now fixed; kept as a counterexample theorem about the old loop); the HTML '
          'formatter model writes at most 6 bytes per byte of document text + 364 bytes per node + the decimal strings (trees without footnote '
          'definitions, header_ids off or anchors bounded); the memo-less code-dollar scanner takes (p+1) n (n+1)/2 - n steps on n '
          'unclosed openers (quadratic lower bound, a defect of the pinned tree listed as a known finding); the reference-expansion budget is never '
@@ -64,13 +72,13 @@ TEXT = {'text': 'Proof (partial). Lean proves: escape and escape_href write at m
          'after 1001 steps; URL parenthesis depth is capped at 32. Tie to the code (hook comrak::verif::steps, cfg(comrak_verif)), equality of step '
          'counts: backtick-scan == the positional cost model on all one-paragraph texts over {a,`} up to length 11 (quick) / 14 (thorough) and on '
          'random texts with runs up to 200; dollar-scan (math_code) == the byte-level model on all texts over {$,`,a,\\} up to length 8 / 9 and '
-         'random ones, and == cdSteps of the pieces when every scan runs to the end; emphasis-opener-search == the delimiter-stack model on all '
-         'texts over {*,_,a,space} up to length 8 / 9, random ones and the rule-of-three family; the proved bounds are re-checked on every text. Search (always full volume): for every fragment up to length '
+         'random ones, and == cdSteps of the pieces when every scan runs to the end; emphasis-opener-search == the delimiter-stack model of the current loop on all '
+         'texts over {*,_,a,space} up to length 8 / 9, random ones and the rule-of-three family (the model of the loop before the repair differs on ~1500 of them); the proved bounds are re-checked on every text. Search (always full volume): for every fragment up to length '
          '3/4 over a 30-symbol Markdown alphabet and ~150 curated shapes, families f^n, (f LF)^n, f^n a mirror(f)^n and tree-shaped repetitions '
          'are parsed and rendered (HTML, CommonMark, XML) under default, GFM and all-extensions options in isolated workers; the log-log slope '
          'of the 12 summed step counters between the two largest n must stay <= 1.25 and output <= 160 n + 4096. Four super-linear classes of '
          'the pinned tree are listed as known findings (code-dollar scanner, math-dollar scanner with escaped dollars, recursive e-mail autolink '
-         'pass, emphasis opener search under the rule of three). Instruction counts: for 20 payload contexts (link destination, title, info string, reference label and definition, autolink, code span, alert title, wikilink, HTML attribute, heading, table cell, footnote label, task item, math, description details) filled with n copies of a fragment, and for the curated nesting shapes, one worker process per input is run under valgrind (cachegrind, no cache simulation) at n = 6000 and 12000 and the log-log slope of the executed instructions above the empty-document run must stay <= 1.40: this sees copying, memmove, hashing and formatting that no step counter sits in (it found the nested footnote-label finding, and it is what reports a quadratic helper under the cleaning functions).',
+         'pass, emphasis opener search under the rule of three; the last two since repaired in /repo, commits e3c39db and 9704a60, and listed as fixed). Instruction counts: for 20 payload contexts (link destination, title, info string, reference label and definition, autolink, code span, alert title, wikilink, HTML attribute, heading, table cell, footnote label, task item, math, description details) filled with n copies of a fragment, and for the curated nesting shapes, one worker process per input is run under valgrind (cachegrind, no cache simulation) at n = 6000 and 12000 and the log-log slope of the executed instructions above the empty-document run must stay <= 1.40: this sees copying, memmove, hashing and formatting that no step counter sits in (it found the nested footnote-label finding, and it is what reports a quadratic helper under the cleaning functions).',
  'note': 'Trusted: Lean kernel + standard axioms; harness, worker protocol, hook lines, valgrind instruction counts; work outside the hooked loops is covered by instruction counts on the payload-context and nesting families and by wall clock elsewhere.',
  'technique': 'Lean 4 cost models with proved bounds + step-counter correspondence through cfg(comrak_verif) hooks + growth-exponent search on '
               'input families in isolated processes',
